@@ -68,17 +68,14 @@ def call? (s : String) : Option Call :=
 def optStr : Option Int → String
   | none => "N" | some d => toString d
 
-/-- the harness' test listener watches a quantity that changes sign every `flipPeriod` µs of the date
-(not for the numerical propagator, whose listeners are silent in the correspondence) -/
+/-- the harness' test listener watches a quantity that changes sign every `flipPeriod` µs of the date -/
 def flipPeriod : Int := 700000000
 /-- the sign changes fall between the points of the 0.125 s grid the generated dates lie on (an event exactly on a
 sampled date is C10's subject) -/
 def flipOffset : Int := 31250
 
-def flips (k : Kind) (p d : Int) : Bool :=
-  match k with
-  | .num => false
-  | _ => ((p - flipOffset) / flipPeriod) % 2 != ((d - flipOffset) / flipPeriod) % 2
+def flips (_k : Kind) (p d : Int) : Bool :=
+  ((p - flipOffset) / flipPeriod) % 2 != ((d - flipOffset) / flipPeriod) % 2
 
 def histOp (k : Kind) (fuel order : Nat) (h : Int) (npts nls : Nat) (calls : List Call) : String :=
   let w := mkWorld k order h npts
